@@ -257,7 +257,7 @@ func (c *Ctx) failureExits(fn *ssa.Function, l *natLoop, call ssa.CallInstructio
 				continue
 			}
 			tested = true
-			if c.staysInLoop(fn, l, failSucc) {
+			if c.staysInLoopOnEdge(fn, l, b, failSucc, ifi.Cond, failSucc == b.Succs[0]) {
 				return false, "a failure outcome of " + ir.CallID(call) + " continues the loop at " + c.Pos(ir.BlockPos(failSucc))
 			}
 		}
@@ -289,6 +289,117 @@ func (c *Ctx) staysInLoop(fn *ssa.Function, l *natLoop, b *ssa.BasicBlock) bool 
 		}
 	}
 	return false
+}
+
+// staysInLoopOnEdge: staysInLoop for the edge from -> to on which cond has the
+// given truth, followed path by path with what is known about boolean values on
+// the way: tests of the same comparison take the branch already decided, phis take
+// the value of the edge they are entered through, and a path that arrives at the
+// header with the loop condition decided to "leave" does not stay in the loop (a
+// loop driven by a flag that the failure branch clears). Anything not decided
+// counts as staying.
+func (c *Ctx) staysInLoopOnEdge(fn *ssa.Function, l *natLoop, from, to *ssa.BasicBlock, cond ssa.Value, truth bool) bool {
+	if !c.staysInLoop(fn, l, to) {
+		return false
+	}
+	negOp := map[token.Token]token.Token{token.EQL: token.NEQ, token.NEQ: token.EQL, token.LSS: token.GEQ, token.GEQ: token.LSS, token.GTR: token.LEQ, token.LEQ: token.GTR}
+	sameOperand := func(a, b ssa.Value) bool {
+		a, b = ir.StripConv(a), ir.StripConv(b)
+		if a == b {
+			return true
+		}
+		ka, okA := ir.ConstInt(a)
+		kb, okB := ir.ConstInt(b)
+		return okA && okB && ka == kb
+	}
+	var eval func(v ssa.Value, env map[ssa.Value]bool, depth int) (bool, bool)
+	eval = func(v ssa.Value, env map[ssa.Value]bool, depth int) (bool, bool) {
+		if depth > 6 || v == nil {
+			return false, false
+		}
+		if k, isK := v.(*ssa.Const); isK && k.Value != nil && isBoolType(k.Type()) {
+			return k.Value.String() == "true", true
+		}
+		if val, known := env[v]; known {
+			return val, true
+		}
+		switch x := v.(type) {
+		case *ssa.UnOp:
+			if x.Op == token.NOT {
+				val, known := eval(x.X, env, depth+1)
+				return !val, known
+			}
+		case *ssa.BinOp:
+			for kv, val := range env {
+				kb, isB := kv.(*ssa.BinOp)
+				if !isB || !sameOperand(kb.X, x.X) || !sameOperand(kb.Y, x.Y) {
+					continue
+				}
+				if kb.Op == x.Op {
+					return val, true
+				}
+				if negOp[kb.Op] == x.Op && negOp[kb.Op] != token.ILLEGAL {
+					return !val, true
+				}
+			}
+		}
+		return false, false
+	}
+	budget := 400
+	var walk func(prev, b *ssa.BasicBlock, env map[ssa.Value]bool, onPath map[int]bool) bool
+	walk = func(prev, b *ssa.BasicBlock, env map[ssa.Value]bool, onPath map[int]bool) bool {
+		budget--
+		if budget < 0 || !l.body[b.Index] {
+			return budget < 0
+		}
+		env2 := map[ssa.Value]bool{}
+		for k, v := range env {
+			env2[k] = v
+		}
+		for _, i := range b.Instrs {
+			ph, isPhi := i.(*ssa.Phi)
+			if !isPhi {
+				break
+			}
+			delete(env2, ph)
+			for k, p := range b.Preds {
+				if p == prev {
+					if val, known := eval(ph.Edges[k], env, 0); known {
+						env2[ph] = val
+					}
+				}
+			}
+		}
+		var next []*ssa.BasicBlock
+		if ifi, isIf := b.Instrs[len(b.Instrs)-1].(*ssa.If); isIf && len(b.Succs) == 2 {
+			if val, known := eval(ifi.Cond, env2, 0); known {
+				if val {
+					next = []*ssa.BasicBlock{b.Succs[0]}
+				} else {
+					next = []*ssa.BasicBlock{b.Succs[1]}
+				}
+			}
+		}
+		if b == l.header {
+			// arrived for the next round: does the loop condition let it begin?
+			return !(len(next) == 1 && !l.body[next[0].Index])
+		}
+		if onPath[b.Index] {
+			return true // an inner cycle: not followed
+		}
+		if next == nil {
+			next = b.Succs
+		}
+		onPath[b.Index] = true
+		defer delete(onPath, b.Index)
+		for _, s := range next {
+			if l.body[s.Index] && walk(b, s, env2, onPath) {
+				return true
+			}
+		}
+		return false
+	}
+	return walk(from, to, map[ssa.Value]bool{cond: truth}, map[int]bool{})
 }
 
 func (c *Ctx) classifyLoop(fn *ssa.Function, l *natLoop) (class string, ok bool, detail string) {
@@ -640,6 +751,42 @@ func (c *Ctx) ruleLoopAlias(rule string, in func(*ssa.Function) bool) int {
 					}
 					if written {
 						bad = "the address of " + a.Comment + " (declared outside the loop, assigned on every iteration) is retained at " + c.IPos(st)
+					}
+				}
+			}
+			// a function literal made in the loop that captures such a variable and is kept
+			// for later (stored, appended) instead of being called or handed on at once sees
+			// the variable's last value when it finally runs
+			for bi := range l.body {
+				for _, ins := range fn.Blocks[bi].Instrs {
+					mk, ok := ins.(*ssa.MakeClosure)
+					if !ok || mk.Referrers() == nil {
+						continue
+					}
+					kept := false
+					for _, r := range *mk.Referrers() {
+						switch y := r.(type) {
+						case *ssa.Store:
+							if y.Val == ssa.Value(mk) {
+								kept = true
+							}
+						case *ssa.MakeInterface:
+							kept = true
+						}
+					}
+					if !kept {
+						continue
+					}
+					for _, bnd := range mk.Bindings {
+						a, isA := bnd.(*ssa.Alloc)
+						if !isA || a.Block() == nil || l.body[a.Block().Index] {
+							continue
+						}
+						for _, r := range *a.Referrers() {
+							if ws, isSt := r.(*ssa.Store); isSt && ws.Addr == ssa.Value(a) && l.body[ws.Block().Index] {
+								bad = "the function literal kept at " + c.IPos(mk) + " captures " + a.Comment + " (one variable for the whole loop, assigned on every iteration)"
+							}
+						}
 					}
 				}
 			}
